@@ -22,7 +22,7 @@ class C18(BaseCheck):
                       'full-stack', 'percentile:busy-after-full')
   ASSUMPTIONS = ('percentile bounds allow 1e-9 relative slack for the linear interpolation',)
   QUICK_CASES = 720
-  THOROUGH_CASES = 8000
+  THOROUGH_CASES = 40000
   QUICK_WALL = 45
   THOROUGH_WALL = 300
   MIN_DISTINCT = 10
